@@ -136,6 +136,28 @@ func applyDamage(db string, rng *hx.RNG, day int, file, kind, region string) {
 		os.WriteFile(p, nil, 0o644)
 	case "grow":
 		os.WriteFile(p, append(data, rng.Bytes(1+rng.Intn(5000))...), 0o644)
+	case "field-ones":
+		off, width := pos, 4
+		if file == "meta" {
+			// layout: 72-byte header, per column 8 + 9*nBlocks (len u32, raw len u32, encoder u8), first timestamp, 16 per block
+			nb := dmgBlocks
+			col, blk := rng.Intn(int(types.ColIdxCount)), rng.Intn(nb)
+			base := 72 + col*(8+9*nb) + 8 + 9*blk
+			switch region {
+			case "head":
+				off, width = 16+8*rng.Intn(7), 8 // one of the day totals
+			case "first-block":
+				off, width = base+4*rng.Intn(2), 4 // a block length / raw length
+			case "mid":
+				off, width = base+8, 1 // the encoder type byte
+			default:
+				off, width = 72+int(types.ColIdxCount)*(8+9*nb)+8+16*blk+4*rng.Intn(4), 4 // flow counts / drops / timestamp delta
+			}
+		}
+		for i := 0; i < width && off+i < n; i++ {
+			data[off+i] = 0xff
+		}
+		os.WriteFile(p, data, 0o644)
 	}
 }
 
@@ -228,6 +250,8 @@ func cmdDamage(args []string) {
 			return err
 		}
 		db := filepath.Join(*root, fmt.Sprintf("d%06d", n))
+		o.Emit(map[string]any{"begin": n})
+		o.Flush() // a crash of the code under test in a goroutine of its own kills this process: the driver must know where
 		n++
 		if out, err := exec.Command("cp", "-a", base, db).CombinedOutput(); err != nil {
 			hx.Die("cp: %v %s", err, out)
